@@ -1,4 +1,4 @@
 From Coq Require Import Extraction ExtrOcamlBasic.
 From OV Require Import Common.Base C09.Model.
 Extraction Language OCaml.
-Extraction "C09_model.ml" gstep project sst0 lrun lrun_wraps accepted bracketed stops_ok nondecreasing outputs no_prune c4z lstep_wraps4 mono_outs strict strictT nondecreasing_sent issue never_restored all_acked no_late encode_wire decode_wire through_wire wire_range.
+Extraction "C09_model.ml" gstep project sst0 lrun lrun_wraps accepted bracketed stops_ok nondecreasing outputs no_prune c4z l2tp_view lstep_wraps4 mono_outs strict strictT nondecreasing_sent issue never_restored all_acked no_late encode_wire decode_wire through_wire wire_range.
